@@ -87,9 +87,18 @@ def add_second_loop(rr, prog):
                 o['target'] = rr.choice(targets)
     for o in second['outside']:
         o['name'] = 'two' + o['name']
+    if rr.random() < 0.3 and prog['template'] != 'replicated':
+        # the second loop consumes the first one: its input binding names the placeholder of a looped component of the
+        # first document ("its last iteration"); it is imported in a later stage; the two $import entries may be listed
+        # in either order
+        second['depends'] = {'target': prog['carried_from'], 'import_first': rr.random() < 0.5}
+        second['import_stage'] = prog['import_stage'] + span_of(prog) + rr.choice([1, 1, 2])
+        second['want_repl_input'] = False
+        prog['want_repl_input'] = False
     prog['second'] = second
     order = [0] * prog['k'] + [1] * second['k']
-    rr.shuffle(order)
+    if not second.get('depends'):
+        rr.shuffle(order)
     prog['order'] = order
     nrel = rr.choice([0, 1, 2])
     prog['reloads'] = sorted(rr.sample(range(0, len(order) + 1), min(nrel, len(order) + 1)))  # positions in 'order'
@@ -195,15 +204,29 @@ def render_package(prog):
     for st in range(1, max(lp['import_stage'] for lp in loops)):
         main += ['- stage: %d' % st, '  name: Filler%d' % st, '  command: {executable: echo, arguments: "f"}']
     files = {}
+    imports = []
     for lp in loops:
         S = lp['import_stage']
         m = lp['method']
         fname = lp.get('file') or 'dowhile.yaml'
         files[fname] = render_dw(lp)
-        main += ['- stage: %d' % S, '  $import: %s' % fname, '  name: %s' % lp['name'], '  bindings:',
-                 '    val: stage0.GenerateInput:%s' % m]
+        src = 'stage0.GenerateInput'
+        if lp.get('depends'):
+            first = loops[0]
+            bs0 = {n: st for (n, st, _, _, _) in body_components(first)}
+            tname = bn(first, lp['depends']['target'])
+            src = 'stage%d.%s' % (first['import_stage'] + bs0[tname], tname)
+            lp['depends']['stage'] = first['import_stage'] + bs0[tname]
+            lp['depends']['name'] = tname
+        entry = ['- stage: %d' % S, '  $import: %s' % fname, '  name: %s' % lp['name'], '  bindings:',
+                 '    val: %s:%s' % (src, m)]
         if lp['const_binding']:
-            main += ['    const: stage0.Const:ref']
+            entry += ['    const: stage0.Const:ref']
+        imports.append(entry)
+    if len(loops) > 1 and (loops[1].get('depends') or {}).get('import_first'):
+        imports.reverse()
+    for entry in imports:
+        main += entry
     for lp in loops:
         S = lp['import_stage']
         body_stage = {n: st for (n, st, _, _, _) in body_components(lp)}
@@ -251,7 +274,9 @@ def expected_loop(prog, k):
                 preds = set()
                 for (p, is_b) in refs:
                     if is_b and p == 'val':
-                        if i == 0:
+                        if i == 0 and prog.get('depends'):
+                            preds.add('@first-loop')  # resolved by the judge: it knows how far the first loop got
+                        elif i == 0:
                             preds.update(gen)
                         else:
                             preds.update(inst(carried, i - 1))
@@ -440,6 +465,19 @@ def judge_loop(exp, prog, k, viol, where, cnt):
         return
     for n in sorted(e_looped):
         got = {p for p in nodes[n]}
+        if '@first-loop' in e_nodes[n]:
+            # consumer of the first loop's placeholder: wired to every instance of the looped component (and nothing
+            # outside the first loop, apart from its other expected producers)
+            dep = loops[1]['depends']
+            must = {'stage%d.%d#%s' % (dep['stage'], i, dep['name']) for i in range(ks[0] + 1)}
+            first_nodes = {x for x in nodes if '#' in x and int(x.split('.')[0][5:]) in
+                           range(loops[0]['import_stage'], loops[0]['import_stage'] + span_of(loops[0]) + 1)}
+            rest = e_nodes[n] - {'@first-loop'}
+            if not (must | rest) <= got or not got <= (first_nodes | rest):
+                V('wiring:consumer-of-another-loop-not-wired-to-its-instances', {'node': n, 'must_include': sorted(must | rest),
+                                                                                  'got': sorted(got)})
+                break
+            continue
         if got != e_nodes[n]:
             V('wiring:predecessors-of-instance-differ', {'node': n, 'expected': sorted(e_nodes[n]), 'got': sorted(got)})
             break
@@ -489,7 +527,7 @@ def snapshot_experiment(exp):
     # live graph (each iteration adds the edge from its condition, none is removed); they are not data references and
     # a freshly loaded graph has only the one from the current condition
     docs0 = wg._documents.get(F.FlowIR.LabelDoWhile, {})
-    stale = set()
+    stale = {}  # condition instance of a finished iteration -> (stages, names) of its own loop body
     for name in docs0:
         st = docs0[name].get('state') or {}
         cur = st.get('currentCondition')
@@ -498,9 +536,20 @@ def snapshot_experiment(exp):
         cur_node = cur.split('/')[0].split(':')[0]
         stage, cname = cur_node.split('.', 1)
         cur_it, base = cname.split('#', 1)
+        doc = docs0[name].get('document') or {}
+        own = set((int(doc.get('stage', 0)) + int(c.get('stage', 0)), c['name']) for c in doc.get('components', []))
         for i in range(int(cur_it)):
-            stale.add('%s.%d#%s' % (stage, i, base))
-    d['edges'] = [e for e in d['edges'] if not (e[0] in stale and '#' not in e[1])]
+            stale['%s.%d#%s' % (stage, i, base)] = own
+
+    def outside(node, own):
+        # not an instance of the loop the condition belongs to (a plain component or an instance of another loop)
+        st_, nm = node.split('.', 1)
+        if '#' not in nm:
+            return True
+        b = nm.split('#', 1)[1]
+        return not any(s_ == int(st_[5:]) and (b == n_ or (b.startswith(n_) and b[len(n_):].isdigit())) for (s_, n_) in own)
+
+    d['edges'] = [e for e in d['edges'] if not (e[0] in stale and outside(e[1], stale[e[0]]))]
     for n in d['nodes']:
         d['nodes'][n].pop('env', None)  # launch-environment: not part of the stored description
     conc = wg.configuration.get_flowir_concrete(return_copy=True)
@@ -527,7 +576,7 @@ def conf_bytes(exp):
             out[f] = None
             continue
         if isinstance(doc, dict) and isinstance(doc.get('components'), list):
-            doc['components'] = sorted(doc['components'], key=lambda c: (c.get('stage', 0), str(c.get('name'))))
+            # (the order of the component entries is part of what is compared: loading and storing must not shuffle them)
             for c in doc['components']:
                 wa = c.get('workflowAttributes')
                 # isRepeat is derived from repeatInterval by the loader; materialising the derived value on the first
